@@ -13,6 +13,7 @@ from ..sim import machine as M
 from ..gen import par
 
 ID = "C10"
+IMPORTS = ['rig.machine_control.machine_controller', 'rig.routing_table.utils']
 LEVEL = "exploration"
 TECHNIQUE = ("post-condition monitor (independent in/out direction "
              "recomputation) + reference-model monitor comparing the "
